@@ -135,7 +135,17 @@ fn menu(func: u8) -> Vec<Hdr> {
             t.extend_from_slice(&1000u32.to_le_bytes());
             let mut both = t.clone();
             both.extend(app::hdr_all(20, 0));
+            let two = |q: u8| {
+                let mut v = if q == 0x07 { vec![50, 2, 0x07, 2] } else { vec![50, 2, 0x08, 2, 0] };
+                for k in 0..2u64 {
+                    v.extend_from_slice(&app::time48(5000 + k));
+                    v.extend_from_slice(&1000u32.to_le_bytes());
+                }
+                v
+            };
             vec![
+                h("two-g50v2-times-count8", Reject, two(0x07)),
+                h("two-g50v2-times-count16", Reject, two(0x08)),
                 h("g50v2+g20v0", Accept, both),
                 h("g20v0-without-time", Reject, app::hdr_all(20, 0)),
                 h("g1v0-in-freeze", Reject, app::hdr_all(1, 0)),
